@@ -43,7 +43,7 @@ def main():
     items = []
     for tid, rty, tmpl in bodies():
         for mech in MECHS:
-            items.append(dict(tid=tid, mech=mech, n=(4 if tier == "quick" else 40)))
+            items.append(dict(tid=tid, mech=mech, n=(4 if tier == "quick" else 100)))
     common.rng(PROP, "plan").shuffle(items)
     nshards = 16 if tier == "quick" else 32
     jobs = [dict(seed="%d/%s/%d" % (common.seed(), PROP, s), items=items[s::nshards], solver=True) for s in range(nshards)]
